@@ -793,6 +793,13 @@ func init() {
 		return &TimeVal{ns: e.tc.Add(e.tc.Mul(a[0].(*Term), mkInt64(1000000000)), a[1].(*Term))}
 	})
 
+	reg("context.Background", func(e *Exec, fn *ssa.Function, a []Value) Value {
+		return Iface{t: getOpaqueType("context"), v: &Opaque{name: "context.Background"}}
+	})
+	reg("context.TODO", func(e *Exec, fn *ssa.Function, a []Value) Value {
+		return Iface{t: getOpaqueType("context"), v: &Opaque{name: "context.TODO"}}
+	})
+
 	// ---------- sort support (reflectlite) ----------
 	reg("internal/reflectlite.ValueOf", func(e *Exec, fn *ssa.Function, a []Value) Value {
 		return &Opaque{name: "reflectlite.Value", data: a[0]}
